@@ -50,6 +50,28 @@ def make_workspace(rng, root):
         p = os.path.join(root, nm + ".god")
         open(p, "w", encoding="utf-8").write(text)
         files.append(p)
+    # core bundles (directories named WAM* / WF*): analysed by a pool job at start-up, while the first messages arrive
+    if rng.random() < 0.5:
+        for d in rng.sample(["WAMcore", "WFbase", "WAM", "WFx1"], rng.randint(1, 2)):
+            os.mkdir(os.path.join(root, d))
+            prev = None
+            for j in range(rng.choice([3, 10, 40, 120])):
+                nm = "a%s%d" % (d, j)
+                body, _, _ = g.gen_program(n_decls=rng.randint(0, 3), header="none")
+                par = " (%s)" % prev if prev and rng.random() < 0.5 else ""
+                open(os.path.join(root, d, nm + ".god"), "w", encoding="utf-8").write("class %s%s\n" % (nm, par) + body)
+                prev = nm if rng.random() < 0.7 else prev
+                if j < 2:
+                    files.append(os.path.join(root, d, nm + ".god"))
+    # files that are not text: odd lengths, byte order marks, invalid UTF-8, NUL bytes, nothing at all
+    if rng.random() < 0.35:
+        for nm, raw in rng.sample([("aBomLE", b"\xff\xfeclass aBomLE\n"), ("aBomOdd", b"\xff\xfec\x00l\x00a"), ("aBomBE", b"\xfe\xff\x00c\x00l"),
+                                   ("aUtf8Bom", b"\xef\xbb\xbfclass aUtf8Bom\nF : int4\n"), ("aBadUtf", b"class aBadUtf\n\xc3\x28 \xff\xff : int4\n"),
+                                   ("aNul", b"class aNul\x00\nproc P\x00\nendproc\n"), ("aEmpty", b""), ("aLatin", "class aLatin\nconst c = 'd\xe9j\xe0'\n".encode("latin-1"))],
+                                  rng.randint(1, 3)):
+            p = os.path.join(root, nm + ".god")
+            open(p, "wb").write(raw)
+            files.append(p)
     sub = os.path.join(root, "sub")
     os.mkdir(sub)
     p = os.path.join(sub, "aDeep.god")
